@@ -67,6 +67,24 @@ def oracle(S, proto, path, op, a0, a1, obs, want1):
         bad = [names[k] for k in range(len(names)) if S['frozen'][k] is None and a1['rg'][k] != (k in group)]
         if bad:
             fails.append(('train-exact:%s:%s' % (method, op[0]), 'after %s the trainable tensors are not exactly the named group: wrong %s' % (op[0], bad)))
+    # (3b) a switch does what it says whatever preceded: after `train_<k> := b` every mask of kind k held by a
+    #      non-frozen masker has requires_grad == b and the property reads back b; after `discrete_cost := b`
+    #      every layer's discrete_cost is b
+    if op[0] == 'set':
+        fl, b = op[1], bool(op[2])
+        fidx = ('train_features', 'train_rf', 'train_dilation', 'train_selection', 'discrete_cost').index(fl)
+        if a1['flags'][fidx] is not None and a1['flags'][fidx] != b:
+            fails.append(('switch-readback:%s:%s' % (method, fl), 'after %s the property %s reads %s' % (M.op_name(op), fl, a1['flags'][fidx])))
+        if fl == 'discrete_cost':
+            bad = [n for n, v in zip(S['disc_layers'], a1['ldisc']) if v != b]
+            if bad:
+                fails.append(('switch-ignored:%s:%s=%s' % (method, fl, b), 'after %s the layers %s still have discrete_cost = %s' % (M.op_name(op), bad, not b)))
+        else:
+            lk = {'train_features': 'feat', 'train_rf': 'rf', 'train_dilation': 'dil', 'train_selection': 'sel'}[fl]
+            ids = sorted({l[lk] for l in S['layers'] if l[lk] is not None and S['frozen'][l[lk]] is None})
+            bad = [names[k] for k in ids if a1['rg'][k] != b]
+            if bad:
+                fails.append(('switch-ignored:%s:%s=%s' % (method, fl, b), 'after %s the masks %s have requires_grad = %s' % (M.op_name(op), bad, not b)))
     # (4) frozen masks never receive a gradient
     if obs is not None:
         for k, cls in enumerate(S['frozen']):
@@ -318,7 +336,7 @@ def replay(r):
             fails = oracle(S, r['prototype'], r['path'], op, a0, a, obs, want)
         print('after %-40s trainable: %s   samplers: %s' % (M.op_name(op), [n for n, g in zip(S['names'], a['rg']) if g and ('masker' in n or 'alpha' in n)],
                                                            [(n.split('.')[-2] + '.' + n.split('.')[-1], ['sm', 'gs', 'none'][s[2]], float(s[0]), s[1]) for n, s in zip(S['sampler_names'], a['samplers'])][:3]))
-    print('property C11 requires: groups partition the parameters; train_* make exactly the named group trainable; frozen masks %s never trainable and never get a gradient; '
+    print('property C11 requires: groups partition the parameters; train_* make exactly the named group trainable; a switch := b sets every non-frozen mask of its kind (every layer\'s discrete_cost) to b; frozen masks %s never trainable and never get a gradient; '
           'an update of one sampling option keeps the others' % [n for n, c in zip(S['names'], S['frozen']) if c])
     for k, what in fails:
         print('FAILS  %s: %s' % (k, what))
